@@ -443,6 +443,17 @@ type shadow struct {
 	ever   map[int64]bool  // every mapping id ever seen
 }
 
+// local names of the namespace entities known so far (usable as "n<l>:" prefixes)
+func (s *shadow) namespaces() []int64 {
+	var out []int64
+	for _, id := range s.ids {
+		if e := s.ents[id]; e.typ == 4 && e.p == 0 {
+			out = append(out, e.l)
+		}
+	}
+	return out
+}
+
 func (s *shadow) pick(r *vu.Rng) *sEnt {
 	if len(s.ids) == 0 {
 		return nil
@@ -510,7 +521,11 @@ func main() {
 		go func() {
 			defer wg.Done()
 			for i := range jobs {
-				recs[i] = runCase(vu.NewRng(*seed*1000003+uint64(i)), root, i, *seed)
+				if i%4 == 3 { // every fourth case drives the RPC handler's journal long-poll path
+					recs[i] = runJournalCase(vu.NewRng(*seed*1000003+uint64(i)), root, i, *seed)
+				} else {
+					recs[i] = runCase(vu.NewRng(*seed*1000003+uint64(i)), root, i, *seed)
+				}
 			}
 		}()
 	}
@@ -688,6 +703,15 @@ func genOp(r *vu.Rng, c config, sh *shadow, profile int) (*op, []*op) {
 	if profile == 3 {
 		x := r.Intn(100)
 		switch {
+		case x < 12:
+			// directed: a reset to a small limit, then more creations of that metric than the limit allows, close in time
+			m := int64(r.Intn(2))
+			lim := r.Pick(1, 1, 2, c.max)
+			var more []*op
+			for k := int64(0); k < lim+1+int64(r.Intn(2)); k++ {
+				more = append(more, &op{kind: kGoc, metric: m, key: 1 + int64(r.Intn(60))})
+			}
+			return &op{kind: kReset, metric: m, limit: lim}, more
 		case x < 72:
 			return &op{kind: kGoc, metric: int64(r.Intn(2)), key: 1 + int64(r.Intn(60))}, nil
 		case x < 86:
@@ -795,7 +819,14 @@ func genSave(r *vu.Rng, sh *shadow) (*op, []*op) {
 	switch {
 	case x < 30 || e == nil: // create
 		typ := types[r.Intn(len(types))]
+		nss := sh.namespaces()
+		if len(nss) == 0 && r.Chance(35) {
+			typ = 4
+		}
 		p, l := genName(r, typ)
+		if (typ == 0 || typ == 2) && len(nss) > 0 && r.Chance(55) {
+			p = nss[r.Intn(len(nss))] // inside an existing namespace
+		}
 		o := &op{kind: kSave, typ: typ, p: p, l: l, create: true, data: int64(r.Intn(4)), meta: int64(r.Intn(4))}
 		if r.Chance(6) {
 			o.oldv = sh.maxVer + 1 // boundary: the version the create itself would get
@@ -812,6 +843,17 @@ func genSave(r *vu.Rng, sh *shadow) (*op, []*op) {
 		o := &op{kind: kSave, typ: e.typ, p: e.p, l: e.l, id: e.id, oldv: e.ver, data: int64(r.Intn(4)), meta: int64(r.Intn(4))}
 		if r.Chance(40) {
 			o.p, o.l = genName(r, e.typ)
+		}
+		if nss := sh.namespaces(); (e.typ == 0 || e.typ == 2) && len(nss) > 0 && r.Chance(35) {
+			// rename across namespaces: root -> ns, ns -> root, ns1 -> ns2 (the local name mostly kept)
+			targets := append([]int64{0}, nss...)
+			o.p = targets[r.Intn(len(targets))]
+			if e.p != 0 && r.Chance(50) {
+				o.p = 0
+			}
+			if r.Chance(70) {
+				o.l = e.l
+			}
 		}
 		if r.Chance(20) && len(e.old) > 0 {
 			o.oldv = e.old[r.Intn(len(e.old))]
@@ -900,6 +942,14 @@ func oracles(o *rec, sh *shadow, fl *floodOracle, x *op, res string, c config, m
 			tags["edit_ok"] = true
 			if x.p != e.p || x.l != e.l {
 				tags["rename"] = true
+				switch {
+				case e.p != 0 && x.p == 0:
+					tags["rename_ns_to_root"] = true
+				case e.p == 0 && x.p != 0:
+					tags["rename_root_to_ns"] = true
+				case e.p != x.p:
+					tags["rename_ns_to_ns"] = true
+				}
 				// "namespaces cannot be renamed"
 				if e.typ == 4 {
 					if x.typ != 4 {
@@ -1075,7 +1125,10 @@ func (f *floodOracle) reset(x *op, c config) {
 	if lim > 10000 {
 		lim = 10000
 	}
-	f.m[x.metric] = &floodBase{budget: lim, t0: x.now, afterReset: true}
+	// the reset stores the step boundary (roundTime), and calcBudget counts elapsed steps from the stored time, exactly
+	// as it does after a creation: "elapsed steps" are crossed step boundaries. (The unrepaired code stored the raw
+	// time; the uint32 wrap that caused made it exceed this reference as well.)
+	f.m[x.metric] = &floodBase{budget: lim, t0: x.now - x.now%c.step, afterReset: true}
 }
 
 func finalOracles(o *rec, line int, input string, sh *shadow, d metadata.VerifDump, full []tlmetadata.Event, tags map[string]bool) {
